@@ -255,3 +255,313 @@ Proof.
   intros H. unfold rename_class. destruct n as [|c t]; [congruence|].
   cbn [collapse_us]. destruct (is_under c); discriminate.
 Qed.
+
+(* ---------------------------------------------------------------------------------------- *)
+(* scanning a text that is already in snake form *)
+
+Definition sep (r : text) : bool := match r with [] => true | c :: _ => negb (is_alnum c) end.
+
+Lemma tw_stops p l : stops p l = true -> take_while p l = [] /\ drop_while p l = l.
+Proof. destruct l as [|c t]; cbn; [now split|]. destruct (p c); [discriminate|now split]. Qed.
+
+Lemma firstn_len_app {A} (a b : list A) : firstn (length a) (a ++ b) = a.
+Proof. induction a as [|x a IH]; cbn; [now destruct b|now rewrite IH]. Qed.
+Lemma skipn_len_app {A} (a b : list A) : skipn (length a) (a ++ b) = b.
+Proof. induction a as [|x a IH]; cbn; [reflexivity|exact IH]. Qed.
+
+Lemma alt1_none s : stops is_upper s = true -> alt1_len s = None.
+Proof. intros H. unfold alt1_len. destruct (tw_stops _ _ H) as [-> _]. reflexivity. Qed.
+
+Lemma sep_stops_lower r : sep r = true -> stops is_lower r = true.
+Proof. destruct r as [|c t]; cbn; [reflexivity|]. cls; lia. Qed.
+Lemma sep_stops_upper r : sep r = true -> stops is_upper r = true.
+Proof. destruct r as [|c t]; cbn; [reflexivity|]. cls; lia. Qed.
+Lemma sep_stops_digit r : sep r = true -> stops is_digit r = true.
+Proof. destruct r as [|c t]; cbn; [reflexivity|]. cls; lia. Qed.
+
+Lemma stops_digits_then p ds r :
+  (forall c, is_digit c = true -> p c = false) ->
+  forallb is_digit ds = true -> stops p r = true -> stops p (ds ++ r) = true.
+Proof.
+  intros Hp Hd Hr. destruct ds as [|d ds']; [exact Hr|]. cbn in *.
+  apply andb_true_iff in Hd as [Hd _]. now rewrite (Hp _ Hd).
+Qed.
+
+(* lower-case word: [a-z]* then digits *)
+Lemma match_at_lower xs ds r :
+  forallb is_lower xs = true -> forallb is_digit ds = true -> xs ++ ds <> [] -> sep r = true ->
+  match_at (xs ++ ds ++ r) = (xs ++ ds, r).
+Proof.
+  intros Hx Hd Hne Hr.
+  assert (Hsl : stops is_lower (ds ++ r) = true)
+    by (apply stops_digits_then; [exact digit_not_lower|exact Hd|now apply sep_stops_lower]).
+  assert (Hsu : stops is_upper (xs ++ ds ++ r) = true).
+  { destruct xs as [|x xs']; cbn [app].
+    - apply stops_digits_then; [exact digit_not_upper|exact Hd|now apply sep_stops_upper].
+    - cbn in *. apply andb_true_iff in Hx as [Hx _]. now rewrite (lower_not_upper _ Hx). }
+  unfold match_at. rewrite (alt1_none _ Hsu).
+  assert (Hs : exists c t, xs ++ ds ++ r = c :: t /\ is_upper c = false).
+  { destruct (xs ++ ds ++ r) as [|c t] eqn:E.
+    - destruct xs; [destruct ds; [now contradiction Hne|discriminate]|discriminate].
+    - exists c, t. split; [reflexivity|]. cbn in Hsu. now destruct (is_upper c). }
+  destruct Hs as (c & t & Es & Hc). rewrite Es, Hc, <- Es.
+  rewrite (tw_app _ _ _ Hx Hsl), (dw_app _ _ _ Hx Hsl).
+  rewrite (tw_app _ _ _ Hd (sep_stops_digit _ Hr)), (dw_app _ _ _ Hd (sep_stops_digit _ Hr)).
+  reflexivity.
+Qed.
+
+(* upper-case word: [A-Z]* then digits *)
+Lemma match_at_upper us ds r :
+  forallb is_upper us = true -> forallb is_digit ds = true -> us ++ ds <> [] -> sep r = true ->
+  match_at (us ++ ds ++ r) = (us ++ ds, r).
+Proof.
+  intros Hu Hd Hne Hr.
+  assert (Hsu : stops is_upper (ds ++ r) = true)
+    by (apply stops_digits_then; [exact digit_not_upper|exact Hd|now apply sep_stops_upper]).
+  assert (Hsl : stops is_lower (ds ++ r) = true)
+    by (apply stops_digits_then; [exact digit_not_lower|exact Hd|now apply sep_stops_lower]).
+  assert (Hsd := sep_stops_digit _ Hr).
+  unfold match_at, alt1_len.
+  rewrite (tw_app _ _ _ Hu Hsu), (dw_app _ _ _ Hu Hsu).
+  destruct (Nat.leb 2 (length us)) eqn:E2.
+  - (* the whole run is taken: the next character is a digit, a separator or the end *)
+    assert (Hk : match ds ++ r with
+                 | [] => Some (length us)
+                 | c :: _ => if is_lower c then if Nat.leb 3 (length us) then Some (Nat.pred (length us)) else None
+                             else Some (length us)
+                 end = Some (length us)).
+    { destruct (ds ++ r) as [|c t]; [reflexivity|]. cbn in Hsl. now destruct (is_lower c). }
+    rewrite Hk, firstn_len_app, skipn_len_app.
+    now rewrite (tw_app _ _ _ Hd Hsd), (dw_app _ _ _ Hd Hsd).
+  - destruct us as [|u [|u2 us']]; [| |cbn in E2; discriminate].
+    + (* digits only *)
+      cbn [app] in *. destruct ds as [|d ds']; [now contradiction Hne|].
+      cbn [app]. cbn in Hd. apply andb_true_iff in Hd as [Hd1 Hd2].
+      rewrite (digit_not_upper _ Hd1). cbn [take_while drop_while].
+      rewrite (digit_not_lower _ Hd1). cbn [app].
+      change (d :: ds' ++ r) with ((d :: ds') ++ r).
+      assert (Hd' : forallb is_digit (d :: ds') = true) by (cbn; now rewrite Hd1, Hd2).
+      now rewrite (tw_app _ _ _ Hd' Hsd), (dw_app _ _ _ Hd' Hsd).
+    + (* a single capital *)
+      cbn [app]. cbn in Hu. apply andb_true_iff in Hu as [Hu1 _]. rewrite Hu1.
+      destruct (tw_stops _ _ Hsl) as [-> ->]. cbn [app].
+      now rewrite (tw_app _ _ _ Hd Hsd), (dw_app _ _ _ Hd Hsd).
+Qed.
+
+Lemma list_words_word w r :
+  w <> [] -> match_at (w ++ r) = (w, r) -> list_words (w ++ r) = w :: list_words r.
+Proof.
+  intros Hne Hm. destruct w as [|c t]; [now contradiction Hne|].
+  cbn [app] in *. rewrite list_words_step, Hm. reflexivity.
+Qed.
+
+Section Join.
+  Variable P : text -> Prop.
+  Hypothesis HP : forall w r, P w -> sep r = true -> w <> [] /\ match_at (w ++ r) = (w, r).
+
+  Lemma list_words_join ws : Forall P ws -> list_words (join_us ws) = ws.
+  Proof.
+    induction ws as [|w ws IH]; intros Hall; [reflexivity|].
+    inversion Hall as [|? ? Hw Hws]; subst.
+    destruct ws as [|w2 ws'].
+    - cbn [join_us]. rewrite <- (app_nil_r w) at 1.
+      destruct (HP w [] Hw eq_refl) as [Hne Hm]. now rewrite (list_words_word _ _ Hne Hm).
+    - change (join_us (w :: w2 :: ws')) with (w ++ US :: join_us (w2 :: ws')).
+      destruct (HP w (US :: join_us (w2 :: ws')) Hw eq_refl) as [Hne Hm].
+      rewrite (list_words_word _ _ Hne Hm), list_words_skip by reflexivity.
+      now rewrite (IH Hws).
+  Qed.
+End Join.
+
+Definition lower_word (w : text) : Prop :=
+  exists xs ds, w = xs ++ ds /\ forallb is_lower xs = true /\ forallb is_digit ds = true /\ w <> [].
+Definition upper_word (w : text) : Prop :=
+  exists xs ds, w = xs ++ ds /\ forallb is_upper xs = true /\ forallb is_digit ds = true /\ w <> [].
+
+Lemma lower_word_scan w r : lower_word w -> sep r = true -> w <> [] /\ match_at (w ++ r) = (w, r).
+Proof.
+  intros (xs & ds & -> & Hx & Hd & Hne) Hr. split; [exact Hne|].
+  rewrite <- app_assoc. now apply match_at_lower.
+Qed.
+Lemma upper_word_scan w r : upper_word w -> sep r = true -> w <> [] /\ match_at (w ++ r) = (w, r).
+Proof.
+  intros (xs & ds & -> & Hx & Hd & Hne) Hr. split; [exact Hne|].
+  rewrite <- app_assoc. now apply match_at_upper.
+Qed.
+
+Lemma forallb_map {A B} (f : A -> B) (p : B -> bool) (q : A -> bool) l :
+  (forall x, q x = true -> p (f x) = true) -> forallb q l = true -> forallb p (map f l) = true.
+Proof.
+  intros H. induction l as [|c t IH]; cbn; [reflexivity|]. intros Hl.
+  apply andb_true_iff in Hl as [Hc Ht]. now rewrite (H _ Hc), IH.
+Qed.
+Lemma map_id_on {A} (f : A -> A) (q : A -> bool) l :
+  (forall x, q x = true -> f x = x) -> forallb q l = true -> map f l = l.
+Proof.
+  intros H. induction l as [|c t IH]; cbn; [reflexivity|]. intros Hl.
+  apply andb_true_iff in Hl as [Hc Ht]. now rewrite (H _ Hc), IH.
+Qed.
+
+Lemma wshape_split w : wshape w = true ->
+  w = take_while is_alpha w ++ drop_while is_alpha w /\ forallb is_alpha (take_while is_alpha w) = true
+  /\ forallb is_digit (drop_while is_alpha w) = true /\ w <> [].
+Proof.
+  unfold wshape. intros H. apply andb_true_iff in H as [Hn Hd].
+  repeat split; [now rewrite tw_dw|apply tw_all|exact Hd|]. now destruct w.
+Qed.
+
+Lemma map_lower_word w : wshape w = true -> lower_word (map to_lower w).
+Proof.
+  intros H. destruct (wshape_split _ H) as (E & Hx & Hd & Hne).
+  exists (map to_lower (take_while is_alpha w)), (drop_while is_alpha w). repeat split.
+  - rewrite E at 1. rewrite map_app. f_equal. exact (map_id_on _ is_digit _ to_lower_digit Hd).
+  - exact (forallb_map _ _ is_alpha _ to_lower_alpha Hx).
+  - exact Hd.
+  - now destruct w.
+Qed.
+
+Lemma map_upper_word w : wshape w = true -> upper_word (map to_upper w).
+Proof.
+  intros H. destruct (wshape_split _ H) as (E & Hx & Hd & Hne).
+  exists (map to_upper (take_while is_alpha w)), (drop_while is_alpha w). repeat split.
+  - rewrite E at 1. rewrite map_app. f_equal. exact (map_id_on _ is_digit _ to_upper_digit Hd).
+  - exact (forallb_map _ _ is_alpha _ to_upper_alpha Hx).
+  - exact Hd.
+  - now destruct w.
+Qed.
+
+Lemma lower_word_fixed w : lower_word w -> map to_lower w = w.
+Proof.
+  intros (xs & ds & -> & Hx & Hd & _). rewrite map_app.
+  now rewrite (map_id_on _ is_lower _ to_lower_lower Hx), (map_id_on _ is_digit _ to_lower_digit Hd).
+Qed.
+Lemma upper_word_fixed w : upper_word w -> map to_upper w = w.
+Proof.
+  intros (xs & ds & -> & Hx & Hd & _). rewrite map_app.
+  now rewrite (map_id_on _ is_upper _ to_upper_upper Hx), (map_id_on _ is_digit _ to_upper_digit Hd).
+Qed.
+
+Lemma Forall_map_shape (f : N -> N) (Q : text -> Prop) ws :
+  (forall w, wshape w = true -> Q (map f w)) ->
+  Forall (fun w => wshape w = true) ws -> Forall Q (map (map f) ws).
+Proof. intros H Hall. induction Hall; cbn; constructor; auto. Qed.
+
+Lemma map_fixed (f : N -> N) (Q : text -> Prop) ws :
+  (forall w, Q w -> map f w = w) -> Forall Q ws -> map (map f) ws = ws.
+Proof. intros H Hall. induction Hall as [|w ws Hw _ IH]; cbn; [reflexivity|]. now rewrite (H _ Hw), IH. Qed.
+
+(* the words of a snake-case text are the (case-mapped) words it was built from *)
+Lemma list_words_snake st v :
+  list_words (make_snakecase st v) = map (map (if st then to_upper else to_lower)) (list_words v).
+Proof.
+  unfold make_snakecase. destruct st.
+  - apply (list_words_join upper_word upper_word_scan).
+    apply Forall_map_shape; [exact map_upper_word|apply list_words_shape].
+  - apply (list_words_join lower_word lower_word_scan).
+    apply Forall_map_shape; [exact map_lower_word|apply list_words_shape].
+Qed.
+
+Theorem make_snakecase_idempotent st v : make_snakecase st (make_snakecase st v) = make_snakecase st v.
+Proof.
+  unfold make_snakecase at 1. rewrite list_words_snake. unfold make_snakecase. f_equal.
+  destruct st.
+  - apply (map_fixed _ upper_word); [exact upper_word_fixed|].
+    apply Forall_map_shape; [exact map_upper_word|apply list_words_shape].
+  - apply (map_fixed _ lower_word); [exact lower_word_fixed|].
+    apply Forall_map_shape; [exact map_lower_word|apply list_words_shape].
+Qed.
+
+Lemma make_snakecase_skip st c t : is_alnum c = false -> make_snakecase st (c :: t) = make_snakecase st t.
+Proof. intros H. unfold make_snakecase. now rewrite (list_words_skip _ _ H). Qed.
+
+(* characters of a snake-case text *)
+Definition is_idchar (c : N) : bool := is_alnum c || is_under c.
+
+Lemma join_us_chars ws :
+  Forall (fun w => forallb is_alnum w = true) ws -> forallb is_idchar (join_us ws) = true.
+Proof.
+  induction ws as [|w ws IH]; intros Hall; [reflexivity|].
+  inversion Hall as [|? ? Hw Hws]; subst.
+  assert (Hw' : forallb is_idchar w = true).
+  { apply (forallb_imp is_alnum); [|exact Hw]. intros x Hx. unfold is_idchar. now rewrite Hx. }
+  destruct ws as [|w2 ws']; [exact Hw'|].
+  change (join_us (w :: w2 :: ws')) with (w ++ US :: join_us (w2 :: ws')).
+  rewrite forallb_app, Hw'. cbn [forallb]. now rewrite (IH Hws).
+Qed.
+
+Lemma words_alnum_mapped (st : bool) v :
+  Forall (fun w : text => forallb is_alnum w = true /\ w <> [])
+         (map (map (if st then to_upper else to_lower)) (list_words v)).
+Proof.
+  pose proof (list_words_shape v) as Hall. induction Hall as [|w ws Hw _ IH]; cbn; constructor; [|exact IH].
+  split.
+  - apply (forallb_map _ _ is_alnum); [|now apply wshape_alnum].
+    destruct st; [exact to_upper_alnum|exact to_lower_alnum].
+  - destruct (wshape_split _ Hw) as (_ & _ & _ & Hne). now destruct w.
+Qed.
+
+Lemma make_snakecase_chars st v : forallb is_idchar (make_snakecase st v) = true.
+Proof.
+  apply join_us_chars. eapply Forall_impl; [|apply words_alnum_mapped]. now intros w [H _].
+Qed.
+
+Lemma join_us_head w ws : w <> [] -> hd_error (join_us (w :: ws)) = hd_error w.
+Proof. intros H. destruct w as [|c t]; [now contradiction H|]. destruct ws; reflexivity. Qed.
+
+Lemma make_snakecase_not_private st v : is_private (make_snakecase st v) = false.
+Proof.
+  unfold make_snakecase. pose proof (words_alnum_mapped st v) as Hall.
+  destruct (map (map (if st then to_upper else to_lower)) (list_words v)) as [|w ws]; [reflexivity|].
+  inversion Hall as [|? ? [Hw Hne] _]; subst.
+  destruct w as [|c t]; [now contradiction Hne|].
+  assert (E : join_us ((c :: t) :: ws) = c :: match ws with [] => t | _ => t ++ US :: join_us ws end)
+    by (destruct ws; reflexivity).
+  rewrite E. cbn [is_private]. cbn in Hw. apply andb_true_iff in Hw as [Hc _]. now apply alnum_not_under.
+Qed.
+
+(* rename_variable without the two dead branches: `lstrip` never fires (a snake-case text never
+   starts with '_'), so dropping it is an EQUIVALENT mutant *)
+Lemma rename_variable_simpl v st pr :
+  rename_variable v st pr =
+    if text_eqb v [US] then v else if is_dunder v then v else
+    let r := if pr then US :: make_snakecase st v else make_snakecase st v in
+    if is_ident r then r else v.
+Proof.
+  unfold rename_variable. destruct (text_eqb v [US]); [reflexivity|]. destruct (is_dunder v); [reflexivity|].
+  rewrite (make_snakecase_not_private st v). destruct pr; cbn [andb negb is_private]; [reflexivity|].
+  now rewrite (make_snakecase_not_private st v).
+Qed.
+
+Theorem lstrip_is_dead_code v st :
+  let r := make_snakecase st v in drop_while is_under r = r.
+Proof.
+  cbn. pose proof (make_snakecase_not_private st v) as H.
+  destruct (make_snakecase st v) as [|c t]; [reflexivity|]. cbn in *. now rewrite H.
+Qed.
+
+(* T19.3 idempotence of rename_variable on its own outputs, for EVERY text *)
+Definition pref (pr : bool) (r : text) : text := if pr then US :: r else r.
+
+Lemma rename_variable_simpl' v st pr :
+  rename_variable v st pr =
+    if text_eqb v [US] then v else if is_dunder v then v else
+    if is_ident (pref pr (make_snakecase st v)) then pref pr (make_snakecase st v) else v.
+Proof. rewrite rename_variable_simpl. unfold pref. destruct pr; reflexivity. Qed.
+
+Theorem rename_variable_idempotent v st pr :
+  rename_variable (rename_variable v st pr) st pr = rename_variable v st pr.
+Proof.
+  assert (Hsame : rename_variable v st pr = v ->
+                  rename_variable (rename_variable v st pr) st pr = rename_variable v st pr)
+    by (intros E; now rewrite !E).
+  pose proof (rename_variable_simpl' v st pr) as Hs.
+  destruct (text_eqb v [US]) eqn:E1; [apply Hsame; exact Hs|].
+  destruct (is_dunder v) eqn:E2; [apply Hsame; exact Hs|].
+  destruct (is_ident (pref pr (make_snakecase st v))) eqn:E3; [|apply Hsame; exact Hs].
+  rewrite Hs. rewrite rename_variable_simpl'.
+  destruct (text_eqb (pref pr (make_snakecase st v)) [US]); [reflexivity|].
+  destruct (is_dunder (pref pr (make_snakecase st v))); [reflexivity|].
+  assert (Es : make_snakecase st (pref pr (make_snakecase st v)) = make_snakecase st v).
+  { unfold pref. destruct pr; [rewrite make_snakecase_skip by reflexivity|]; apply make_snakecase_idempotent. }
+  rewrite Es, E3. reflexivity.
+Qed.
